@@ -42,7 +42,8 @@ def _member(draw, i, t, size=None, fams=("line", "quad", "const", "sincos", "exp
         if size and m["n"] != size:
             m = None
     else:
-        m = draw(S.hist_spec(costs=("nll",), n_sources=(0, 0), constraints=False, fixed=False, bin_evaluations=("antider",)))
+        hcost = draw(st.sampled_from(["nll", "nll", "chi2"]))  # a chi2 histogram member keeps its own cost also when other members share a source
+        m = draw(S.hist_spec(costs=(hcost,), n_sources=(0, 0) if hcost == "nll" else (1, 1), constraints=False, fixed=False, bin_evaluations=("antider",)))
     return m
 
 
@@ -93,13 +94,13 @@ def strat_cost(draw, tier="quick"):
     cons = draw(S.constraints_for(allnames, truth, max_n=1))
     ref = st.integers(0, 8)
     ops = draw(st.lists(st.one_of(
-        st.fixed_dictionaries({"op": st.sampled_from(["set_multi", "set_member", "set_all_multi"]), "i": ref, "m": ref, "d": st.lists(st.floats(-0.3, 0.3), min_size=4, max_size=4)}),
+        st.fixed_dictionaries({"op": st.sampled_from(["set_multi", "set_member", "set_all_multi", "set_all_member"]), "i": ref, "m": ref, "d": st.lists(st.floats(-0.3, 0.3), min_size=4, max_size=4)}),
         st.fixed_dictionaries({"op": st.sampled_from(["fix_multi", "fix_member", "release_multi"]), "i": ref, "m": ref, "d": st.floats(-0.2, 0.2)}),
         st.fixed_dictionaries({"op": st.just("check")}),
     ), min_size=1, max_size=8))
     # members whose own sources and constraints are declared only *after* the MultiFit has been built from them (through the member fit)
     late = sorted(draw(st.sets(st.integers(0, k - 1), max_size=k))) if draw(st.integers(0, 2)) == 0 else []
-    return {"members": members, "shared": shared, "constraints": cons, "ops": ops, "truth": truth, "names": allnames, "late": late}
+    return {"members": members, "shared": shared, "constraints": cons, "ops": ops, "truth": truth, "names": allnames, "late": late, "omit_axis": draw(st.booleans())}
 
 
 def _truncate(m, n):
@@ -120,7 +121,8 @@ def _truncate(m, n):
 
 def joint_reference(refs, members, shared, p):
     """returns (joint V over the Gaussian members, residual vector, list of gaussian member indices)"""
-    gauss = [i for i, m in enumerate(members) if m["type"] != "hist"]
+    # members with a chi2-type cost enter the joint covariance (a chi2 histogram fit as its own block), Poisson-likelihood members keep their own cost
+    gauss = [i for i, m in enumerate(members) if m["type"] != "hist" or m["cost"] == "chi2"]
     sizes = [refs[i].n for i in gauss]
     off = np.concatenate([[0], np.cumsum(sizes)])
     N = int(off[-1])
@@ -150,6 +152,7 @@ def run_cost(case):
     names = case["names"]
     truth = case["truth"]
     late = set(case.get("late", []))
+    labels_pre = set()
     with guard("build-members"):
         fits = [fs.build(m, apply_params=False, apply_sources=(i not in late)) for i, m in enumerate(members)]
     with guard("MultiFit"):
@@ -164,17 +167,22 @@ def run_cost(case):
                 fs.add_constraint(fits[i], con)
     for s in case["shared"]:
         n = refs[s["fits"][0]].n
+        # members without an x axis (indexed fits) need no axis argument: every second such source is declared without one
+        akw = {"axis": s["axis"]}
+        if all(members[i]["type"] != "xy" for i in s["fits"]) and case.get("omit_axis"):
+            akw = {}
+            labels_pre.add("shared_source_declared_without_axis")
         with guard("multi.add_error(shared)"):
             if s["kind"] == "simple":
                 err = float(s["err"][0]) if s.get("scalar") else np.asarray(s["err"][:n], float)
-                multi.add_error(err, fits=list(s["fits"]), axis=s["axis"], name=s["name"], correlation=s["rho"])
+                multi.add_error(err, fits=list(s["fits"]), name=s["name"], correlation=s["rho"], **akw)
             else:
                 R = np.asarray(s["R"], float)[:n, :n]
                 e = np.asarray(s["e"], float)[:n]
                 if s["form"] == "cor":
-                    multi.add_matrix_error(R, "cor", fits=list(s["fits"]), axis=s["axis"], name=s["name"], err_val=e)
+                    multi.add_matrix_error(R, "cor", fits=list(s["fits"]), name=s["name"], err_val=e, **akw)
                 else:
-                    multi.add_matrix_error(np.outer(e, e) * R, "cov", fits=list(s["fits"]), axis=s["axis"], name=s["name"])
+                    multi.add_matrix_error(np.outer(e, e) * R, "cov", fits=list(s["fits"]), name=s["name"], **akw)
     for con in case["constraints"]:
         with guard("multi.add_parameter_constraint"):
             fs.add_constraint(multi, con)
@@ -182,7 +190,7 @@ def run_cost(case):
     cref.names = names
     vals = {nm: 1.0 for nm in names}
     fixed = set()
-    labels = {f"members={len(members)}"}
+    labels = {f"members={len(members)}"} | labels_pre
     if late:
         labels.add("member_sources_declared_after_MultiFit")
     shared_par = len(names) < sum(len(r.names) for r in refs)
@@ -270,6 +278,14 @@ def run_cost(case):
                 fits[mi].set_parameter_values(**{nm: v})
             vals[nm] = v
             labels.add("set_on_member")
+        elif k == "set_all_member":
+            # all parameters of one member at once, through the member (parameters it shares with other members must follow everywhere)
+            mi = op["m"] % len(fits)
+            new = {nm: (vals[nm] if nm in fixed else truth[nm] * (1 + op["d"][j % 4]) - 0.03) for j, nm in enumerate(refs[mi].names)}
+            with guard("member.set_all_parameter_values"):
+                fits[mi].set_all_parameter_values([new[nm] for nm in refs[mi].names])
+            vals.update(new)
+            labels.add("set_all_on_member")
         elif k == "fix_multi":
             nm = names[op["i"] % len(names)]
             if nm in fixed or len(fixed) >= len(names) - 1:
